@@ -159,7 +159,7 @@ func compareQueryCore(id string, p Path, shape string, doc any, c Case, visited 
 	if f != nil {
 		// Does the implementation behave exactly like the reference with one recorded
 		// defect switched on? Then it is that known finding, not a new violation.
-		for _, q := range append(append([]string{}, refQuirks...), strings.Join(refQuirks, "+")) {
+		for _, q := range quirkSubsets() {
 			var st2 cmpStats
 			// (a reference that declines once the recorded defect is switched on cannot
 			// contradict the implementation either: the failure is attributed to that defect)
@@ -360,4 +360,24 @@ func bareID(v any, inTripleID bool) bool {
 		}
 	}
 	return false
+}
+
+// quirkSubsets: every single recorded defect, then every pair, triple, ... (smallest first, in a fixed order).
+func quirkSubsets() []string {
+	n := len(refQuirks)
+	var out []string
+	for size := 1; size <= n; size++ {
+		for mask := 1; mask < 1<<n; mask++ {
+			var names []string
+			for i := 0; i < n; i++ {
+				if mask&(1<<i) != 0 {
+					names = append(names, refQuirks[i])
+				}
+			}
+			if len(names) == size {
+				out = append(out, strings.Join(names, "+"))
+			}
+		}
+	}
+	return out
 }
